@@ -6,6 +6,7 @@ ORDER_ALGOS = {"lower_bound": 4, "upper_bound": 4, "equal_range": 4, "binary_sea
                "set_difference": 6, "set_intersection": 6}
 INSERTERS = ("push_back", "emplace_back", "emplace", "insert", "unchecked_push_back", "unchecked_emplace_back")
 MAX_PATHS = 128
+NORETURN = {"assert_handler", "terminate", "abort", "unreachable", "raise", "call_assert_handler", "default_assert_handler"}
 
 
 def paths(body):
@@ -37,6 +38,9 @@ def paths(body):
                     c.append(("decl", v))
             return nxt(c)
         if k == "expr":
+            e0 = astx.strip_casts(s["e"])
+            if e0 is not None and e0.get("k") == "call" and astx.callee(e0)[0] in NORETURN:
+                return [cur + [("expr", s["e"]), ("ret", None)]]      # the contract handler / terminate does not return
             return nxt(cur + [("expr", s["e"])])
         if k == "return":
             return [cur + [("ret", s.get("e"))]]
@@ -66,8 +70,9 @@ def paths(body):
                     if "other" not in v:
                         c0.append(("decl", v))
             res = []
-            # zero iterations
-            res += nxt(c0 + ([("cond", s["c"], False)] if s.get("c") is not None and k != "do" else [])) or []
+            # zero iterations (a do-while body runs at least once)
+            if k != "do":
+                res += nxt(c0 + ([("cond", s["c"], False)] if s.get("c") is not None else [])) or []
             # one iteration, then the increment, then a second evaluation of the body head (back edge)
             c1 = c0 + ([("cond", s["c"], True)] if s.get("c") is not None and k != "do" else [])
             for c in walk([s.get("body")], 0, c1) or []:
